@@ -115,6 +115,27 @@ def triage(obs: List[Ob], prop: str, audit: List[AuditEntry], known: List[KnownE
                 o.reason = a.reason
                 a.used += 1
                 break
+    # second pass - code that was moved into another function (helper extracted, closure hoisted to
+    # module level, helper inlined): an audited / known site whose entry was not consumed by its own
+    # function and whose alpha-normalised key (site text and guard) is found unchanged elsewhere keeps
+    # its entry.  The entry still covers `count` sites in total, so an additional copy is reported.
+    for o in obs:
+        if o.state != "violation":
+            continue
+        for k in known:
+            if k.rule == o.rule and k.func != o.func and k.key == o.key and (not prop or prop in k.props) and k.used < 1:
+                o.state = "known"
+                o.reason = k.what + f" (site moved from {k.func})"
+                k.used += 1
+                break
+        if o.state != "violation":
+            continue
+        for a in audit:
+            if a.rule == o.rule and a.func != o.func and a.key == o.key and (a.props is None or not prop or prop in a.props) and a.used < a.count:
+                o.state = "audited"
+                o.reason = a.reason + f" (site moved from {a.func})"
+                a.used += 1
+                break
 
 
 def summarize(obs: List[Ob]) -> Dict[str, int]:
